@@ -229,8 +229,8 @@ func (e *Enc) heapSortOfPlace(p *Place) string {
 // makeLimit is the allocation bound used by make-size obligations: the ghost
 // file size when the contract declares one, else the int range.
 func (e *Enc) makeLimit(fr *Frame, st *State) Term {
-	if gv, ok := e.CS.Ghosts["allocLimit"]; ok && gv != nil {
-		return e.get(st, "ghost.allocLimit", "Int")
+	if e.allocLimit != "" {
+		return e.allocLimit
 	}
 	return "9223372036854775807"
 }
@@ -733,6 +733,15 @@ func (e *Enc) enterLoop(fr *Frame, li *LoopInfo, h *ssa.BasicBlock, inEdges []Te
 			q := e.B.freshName("fr")
 			e.B.assume(fmt.Sprintf("(forall ((%s Int)) (! (=> (>= %s %s) (= (select %s %s) (select %s %s))) :pattern ((select %s %s))))",
 				q, q, a0, st.m[k], q, pre, q, st.m[k], q))
+		}
+	}
+	// an address that escapes anywhere in the loop has escaped for every
+	// iteration after the first
+	for b := range li.Blocks {
+		for _, ins := range b.Instrs {
+			if _, isPhi := ins.(*ssa.Phi); !isPhi {
+				fr.markEscapes(ins)
+			}
 		}
 	}
 	e.restoreLocals(fr, in, st, li.Blocks)
